@@ -42,7 +42,12 @@ RULE = ("seeded batches of ~10 sub-cases, each batch run in a fresh python under
         "calls: missing / extra / out-of-domain / unknown). Slicing TREES: on valid chains ~50% of the "
         "intermediate relations are probed again AFTER all later slices were taken, and in ~40% a second, "
         "different slice is taken from an intermediate relation and probed (M_RelKinds2: the functional model "
-        "predicts that slicing never changes the sliced relation). non-trivial = at least one slicing step or >= 2 variables; distinct = distinct "
+        "predicts that slicing never changes the sliced relation). External definitions: ~30% of the "
+        "expression relations are `source.cost(<params>)` over ExpressionFunction(source_file=...) / "
+        "constraint_from_external_definition: 2-3 temporary python files define the same function name with "
+        "different bodies, one relation is built per file with the same expression text, the relation under test "
+        "is a random one of them; one more relation from another file is created before every relation of the "
+        "chain is evaluated again (ground truth: the body written to that relation's own file). non-trivial = at least one slicing step or >= 2 variables; distinct = distinct "
         "sub-case JSON")
 MODELLED = ("all 8 relation kinds, construction (variable->argument mapping), the five call forms, slice "
             "and dimensions are modelled (M_RelKinds.v). Theorems (all orders of the variable list, all "
@@ -176,7 +181,13 @@ def gen_bspec(rng, pool, kinds=None, malformed=False):
     if k == "neutral":
         return dict(k="neutral", vars=vs), wf
     if k == "mat":
-        return dict(k="mat", vars=vs, shape=None, data=None), wf      # filled by finish_spec (needs domains)
+        spec = dict(k="mat", vars=vs, shape=None, data=None)             # filled by finish_spec (needs domains)
+        if rng.random() < 0.35:
+            # the table is given as a numpy ndarray OWNED BY THE CALLER, who later rewrites that buffer (and builds
+            # another relation from it) before the relation and its earlier slices are evaluated again
+            spec["nd"] = dict(dtype=rng.choice(["int8", "int16", "int32", "int64", "float64"]),
+                              rewrite=rng.choice(["table", "table", "mul", "fill"]), seed=rng.randint(0, 10 ** 6))
+        return spec, wf
     fkw = rng.random() < 0.6
     if fkw:
         params = list(vs)
@@ -333,7 +344,8 @@ def gen_sub(rng):
     # slicing TREE (relations must not be changed by slicing them): intermediate relations of the chain are
     # probed again after all the later slices were taken, and a second slice is taken from one of them
     inter, branch = [], []
-    ext = [b for b in ([spec.get("c"), spec.get("t")] if spec["k"] == "cond" else [spec]) if b and b.get("ext")]
+    ext = [b for b in ([spec.get("c"), spec.get("t")] if spec["k"] == "cond" else [spec])
+           if b and (b.get("ext") or b.get("nd"))]
     if valid and (steps or ext):
         def some_comps(rem, k):
             cs = [[]]
@@ -386,6 +398,8 @@ def _canon(fn):
         return {"err": type(e).__name__}
     if isinstance(v, (bool, int, np.integer, np.bool_)):
         return {"ok": int(v)}
+    if isinstance(v, (float, np.floating)) and float(v).is_integer():      # float64 table holding ints
+        return {"ok": int(v)}
     return {"err": "Other:" + type(v).__name__}
 
 
@@ -429,6 +443,12 @@ def _drive_sub0(sub, holder):
             return R.UnaryBooleanRelation("b", V(s["v"]))
         if k == "neutral":
             return R.NeutralRelation([V(i) for i in s["vars"]], "n")
+        if k == "mat" and s.get("nd"):
+            import numpy as np
+            buf = np.array(nest(s["shape"], s["data"]), dtype=s["nd"]["dtype"])
+            rel = R.NAryMatrixRelation([V(i) for i in s["vars"]], buf, "m")
+            nd_bufs.append((buf, s))
+            return rel
         if k == "mat":
             return R.NAryMatrixRelation([V(i) for i in s["vars"]], nest(s["shape"], s["data"]), "m")
         if s["fk"] == "expr" and s.get("ext"):
@@ -444,7 +464,7 @@ def _drive_sub0(sub, holder):
             f = ns["f"]
         return R.NAryFunctionRelation(f, [V(i) for i in s["vars"]], "f", f_kwargs=s["fkw"])
 
-    ext_tags, keep = [], []
+    ext_tags, keep, nd_bufs = [], [], []
 
     def ext_relation(s, tag, j):
         """the relation defined by source file number j: def cost(a0, ..): <body j over the params>"""
@@ -509,6 +529,29 @@ def _drive_sub0(sub, holder):
     # the chain are evaluated again
     for s_, tag_ in ext_tags:
         ext_relation(s_, tag_, (s_["ext"]["which"] + 1) % len(s_["ext"]["bodies"]))
+    # caller-owned ndarray tables: the caller rewrites its buffer and builds the next relation from it
+    for buf, s_ in nd_bufs:
+        import random as _random
+        r2 = _random.Random(s_["nd"]["seed"])
+        if s_["nd"]["rewrite"] == "mul":
+            buf *= 2
+            buf += 1
+        elif s_["nd"]["rewrite"] == "fill":
+            buf.fill(r2.randint(100, 120))
+        else:
+            buf[...] = __import__("numpy").array([r2.randint(100, 120) for _ in range(buf.size)]).reshape(buf.shape)
+        try:
+            keep.append(R.NAryMatrixRelation([V(i) for i in s_["vars"]], buf, "m2"))
+        except Exception:
+            pass
+    # in-library producers stay independent: set_value_for_assignment on a parent / on a slice returns a new
+    # relation and changes neither
+    if sub["spec"]["k"] == "mat":
+        for rel in chain:
+            try:
+                keep.append(rel.set_value_for_assignment({v.name: v.domain[0] for v in rel.dimensions}, 77))
+            except Exception:
+                pass
     for it in sub.get("inter", []):
         obs["inter"].append(_probe(R, chain[it["i"]], it["probes"]) if it["i"] < len(chain) else None)
     return obs
